@@ -117,6 +117,9 @@ fn sample_json(r: &std::thread::Result<mp4::Result<Option<Mp4Sample>>>, want_byt
                     h = (h ^ (*b as u64)).wrapping_mul(0x100000001b3);
                 }
                 v["fp"] = json!(format!("{:016x}", h));
+                let n = s.bytes.len();
+                v["head"] = json!(hex(&s.bytes[..n.min(8)]));
+                v["tail"] = json!(hex(&s.bytes[n.saturating_sub(8)..]));
             }
             v
         }
@@ -555,7 +558,115 @@ impl Seek for Based {
     }
 }
 
+
+/// A sparse in-memory stream for multi-GiB outputs: large writes of one repeated byte are stored as (byte, length).
+enum Seg {
+    Raw(Vec<u8>),
+    Fill(u8, u64),
+}
+struct Sparse {
+    base: u64,
+    segs: Vec<(u64, Seg)>, // (start offset relative to base, segment), contiguous, in order
+    len: u64,
+    pos: u64,
+}
+impl Sparse {
+    fn new(base: u64) -> Self { Sparse { base, segs: vec![], len: 0, pos: 0 } }
+    fn seg_len(s: &Seg) -> u64 { match s { Seg::Raw(v) => v.len() as u64, Seg::Fill(_, n) => *n } }
+    fn find(&self, off: u64) -> Option<usize> {
+        let mut lo = 0usize; let mut hi = self.segs.len();
+        while lo < hi { let mid = (lo + hi) / 2; let (st, sg) = &self.segs[mid];
+            if off < *st { hi = mid } else if off >= *st + Self::seg_len(sg) { lo = mid + 1 } else { return Some(mid) } }
+        None
+    }
+}
+impl Write for Sparse {
+    fn write(&mut self, b: &[u8]) -> std::io::Result<usize> {
+        if b.is_empty() { return Ok(0); }
+        if self.pos == self.len {
+            let uniform = b.len() >= (1 << 16) && b.iter().all(|x| *x == b[0]);
+            if uniform { self.segs.push((self.len, Seg::Fill(b[0], b.len() as u64))); }
+            else if let Some((_, Seg::Raw(v))) = self.segs.last_mut() { if v.len() < (1 << 20) { v.extend_from_slice(b); } else { self.segs.push((self.len, Seg::Raw(b.to_vec()))); } }
+            else { self.segs.push((self.len, Seg::Raw(b.to_vec()))); }
+            self.len += b.len() as u64; self.pos = self.len;
+            return Ok(b.len());
+        }
+        // overwrite (header patches): must lie inside one raw segment
+        match self.find(self.pos) {
+            Some(i) => { let (st, sg) = &mut self.segs[i];
+                if let Seg::Raw(v) = sg { let o = (self.pos - *st) as usize;
+                    if o + b.len() <= v.len() { v[o..o + b.len()].copy_from_slice(b); self.pos += b.len() as u64; return Ok(b.len()); } }
+                Err(std::io::Error::new(std::io::ErrorKind::Other, "sparse: unsupported overwrite")) }
+            None => Err(std::io::Error::new(std::io::ErrorKind::Other, "sparse: write beyond end")),
+        }
+    }
+    fn flush(&mut self) -> std::io::Result<()> { Ok(()) }
+}
+impl Read for Sparse {
+    fn read(&mut self, b: &mut [u8]) -> std::io::Result<usize> {
+        if self.pos >= self.len || b.is_empty() { return Ok(0); }
+        let i = match self.find(self.pos) { Some(i) => i, None => return Ok(0) };
+        let (st, sg) = &self.segs[i];
+        let o = self.pos - *st;
+        let n = std::cmp::min(b.len() as u64, Self::seg_len(sg) - o) as usize;
+        match sg { Seg::Raw(v) => b[..n].copy_from_slice(&v[o as usize..o as usize + n]), Seg::Fill(x, _) => { for y in b[..n].iter_mut() { *y = *x; } } }
+        self.pos += n as u64;
+        Ok(n)
+    }
+}
+impl Seek for Sparse {
+    fn seek(&mut self, p: SeekFrom) -> std::io::Result<u64> {
+        let t: i128 = match p { SeekFrom::Start(a) => a as i128 - self.base as i128, SeekFrom::Current(d) => self.pos as i128 + d as i128, SeekFrom::End(d) => self.len as i128 + d as i128 };
+        if t < 0 { return Err(std::io::Error::new(std::io::ErrorKind::InvalidInput, "seek before start")); }
+        self.pos = t as u64;
+        Ok(self.pos + self.base)
+    }
+}
+
+fn cmd_mux_sparse(c: &Value) -> Value {
+    let mut out = json!({});
+    let base = u(c, "base").unwrap_or(0);
+    let cfgv = &c["cfg"];
+    let cfg = Mp4Config { major_brand: fourcc_of(&cfgv["major"]), minor_version: cfgv["minor"].as_u64().unwrap_or(0) as u32,
+        compatible_brands: cfgv["brands"].as_array().map(|a| a.iter().map(fourcc_of).collect()).unwrap_or_default(), timescale: cfgv["timescale"].as_u64().unwrap_or(0) as u32 };
+    let mut sp = Sparse::new(base);
+    let mut statuses: Vec<Value> = vec![];
+    let started = guard(|| Mp4Writer::write_start(&mut sp, &cfg));
+    out["start"] = json!(cls(&started));
+    let mut ended = "none";
+    if let Ok(Ok(mut w)) = started {
+        for op in c["ops"].as_array().cloned().unwrap_or_default().iter() {
+            if let Some(a) = op.get("add") {
+                if let Some(tc) = track_config(a) { let r = guard(|| w.add_track(&tc)); statuses.push(json!(cls(&r))); }
+            } else if let Some(s) = op.get("w") {
+                let sample = Mp4Sample { start_time: 0, duration: s[1].as_u64().unwrap_or(0) as u32, rendering_offset: s[2].as_i64().unwrap_or(0) as i32,
+                    is_sync: s[3].as_bool().unwrap_or(false), bytes: sample_bytes(&s[4]).into() };
+                let tid = s[0].as_u64().unwrap_or(0) as u32;
+                let r = guard(|| w.write_sample(tid, &sample));
+                statuses.push(json!(cls(&r)));
+            }
+        }
+        let r = guard(|| w.write_end());
+        ended = cls(&r);
+        drop(w);
+    }
+    out["statuses"] = json!(statuses);
+    out["end"] = json!(ended);
+    out["len"] = json!(sp.len);
+    out["segments"] = json!(sp.segs.iter().map(|(st, sg)| match sg { Seg::Raw(v) => json!(["raw", st, hex(v)]), Seg::Fill(x, n) => json!(["fill", st, x, n]) }).collect::<Vec<Value>>());
+    if ended == "ok" {
+        let n = sp.len;
+        let _ = sp.seek(SeekFrom::Start(base));
+        let opened = guard(|| Mp4Reader::read_header(&mut sp, base + n));
+        let mut rb = json!({"open": cls(&opened)});
+        if let Ok(Ok(mut r)) = opened { dump_reader(&mut r, c, &mut rb); }
+        out["readback"] = rb;
+    }
+    out
+}
+
 fn cmd_mux(c: &Value) -> Value {
+    if c.get("sparse").and_then(|x| x.as_bool()).unwrap_or(false) { return cmd_mux_sparse(c); }
     let mut out = json!({});
     let base = u(c, "base").unwrap_or(0);
     let cfgv = &c["cfg"];
@@ -634,8 +745,22 @@ fn cmd_mux(c: &Value) -> Value {
     out
 }
 
+/// milliseconds since process start at which the current case began (0 = idle)
+static CASE_START_MS: AtomicU64 = AtomicU64::new(0);
+
 fn main() {
     silence_panics();
+    // per-case watchdog: a case that runs longer than HARNESS_CASE_SECONDS (default 20) ends the process with exit code 3;
+    // the driver then records the case as dead and restarts the worker after it
+    let limit_ms: u64 = std::env::var("HARNESS_CASE_SECONDS").ok().and_then(|s| s.parse().ok()).unwrap_or(20) * 1000;
+    let t0 = std::time::Instant::now();
+    std::thread::spawn(move || loop {
+        std::thread::sleep(std::time::Duration::from_millis(200));
+        let st = CASE_START_MS.load(Ordering::Relaxed);
+        if st != 0 && (t0.elapsed().as_millis() as u64).saturating_sub(st) > limit_ms {
+            std::process::exit(3);
+        }
+    });
     let stdin = std::io::stdin();
     let stdout = std::io::stdout();
     let mut o = stdout.lock();
@@ -646,12 +771,15 @@ fn main() {
             Ok(v) => v,
             Err(e) => { let _ = writeln!(o, "{}", json!({"error": format!("bad case: {}", e)})); continue; }
         };
+        let big = c.get("sparse").and_then(|x| x.as_bool()).unwrap_or(false);
+        CASE_START_MS.store(if big { 0 } else { (t0.elapsed().as_millis() as u64).max(1) }, Ordering::Relaxed);
         let r = guard(|| match c["cmd"].as_str().unwrap_or("") {
             "read" => cmd_read(&c),
             "box" => cmd_box(&c),
             "mux" => cmd_mux(&c),
             _ => json!({"error":"unknown cmd"}),
         });
+        CASE_START_MS.store(0, Ordering::Relaxed);
         let v = match r { Ok(v) => v, Err(_) => json!({"error":"harness panic"}) };
         let _ = writeln!(o, "{}", v);
         let _ = o.flush();
